@@ -100,6 +100,13 @@ pub struct PlanCase {
     /// object - a planner object re-used for a query in another space
     #[serde(default)]
     pub space2: Option<SpaceCfg>,
+    /// the sampler fault (`space_fail_at` / `goal_fail_at` = k) persists: every call from the
+    /// k-th on fails, not just the k-th
+    #[serde(default)]
+    pub fault_persists: bool,
+    /// plan on the library's own space object instead of the recording wrapper (see `Flavor`)
+    #[serde(default)]
+    pub raw_space: bool,
 }
 
 impl PlanCase {
@@ -213,6 +220,8 @@ pub struct Step {
     pub goal_samples: (usize, usize),
     pub uniform_calls: (usize, usize),
     pub goal_calls: (usize, usize),
+    /// range into `rec.call_times`: the sampler calls (uniform and goal) made by this step
+    pub sampler_calls: (usize, usize),
     pub elapsed: Duration,
     pub ticks: u64,
     /// the validity-query cap fired during this step (the budget was zeroed mid-call, which also
@@ -230,14 +239,38 @@ pub struct Trace {
     pub lvs: f64,
 }
 
-enum AnyPlanner<K: Kind> {
-    Rrt(RRT<K::S, WSpace<K>, WGoal<K>>),
-    Con(RRTConnect<K::S, WSpace<K>, WGoal<K>>),
-    Star(RRTStar<K::S, WSpace<K>, WGoal<K>>),
-    Prm(PRM<K::S, WSpace<K>, WGoal<K>>),
+/// How the space reaches the planner: through the recording / fault-injecting wrapper
+/// (`Wrapped`, the default) or as the library's own space object (`Raw`). The wrapper can only
+/// forward the trait methods that exist today; a planner that starts consulting a *new* method of
+/// the space would get the trait's default from the wrapper, not the space's own override. Cases
+/// with `raw_space` therefore plan on the real object (no sample log, no sampler faults).
+pub trait Flavor<K: Kind> {
+    type SP: StateSpace<StateType = K::S>;
+    fn wrap(inner: K::SP, cfg: SpaceCfg, rec: RecRef) -> Self::SP;
+}
+pub struct Wrapped;
+pub struct Raw;
+impl<K: Kind> Flavor<K> for Wrapped {
+    type SP = WSpace<K>;
+    fn wrap(inner: K::SP, cfg: SpaceCfg, rec: RecRef) -> WSpace<K> {
+        WSpace { inner, cfg, rec }
+    }
+}
+impl<K: Kind> Flavor<K> for Raw {
+    type SP = K::SP;
+    fn wrap(inner: K::SP, _cfg: SpaceCfg, _rec: RecRef) -> K::SP {
+        inner
+    }
 }
 
-type PD<K> = ProblemDefinition<<K as Kind>::S, WSpace<K>, WGoal<K>>;
+enum AnyPlanner<K: Kind, F: Flavor<K>> {
+    Rrt(RRT<K::S, F::SP, WGoal<K>>),
+    Con(RRTConnect<K::S, F::SP, WGoal<K>>),
+    Star(RRTStar<K::S, F::SP, WGoal<K>>),
+    Prm(PRM<K::S, F::SP, WGoal<K>>),
+}
+
+type PD<K, F> = ProblemDefinition<<K as Kind>::S, <F as Flavor<K>>::SP, WGoal<K>>;
 
 fn err_name(e: &PlanningError) -> String {
     format!("{e:?}")
@@ -246,7 +279,7 @@ fn path_flat<K: Kind>(p: Path<K::S>) -> Vec<Vec<f64>> {
     p.0.iter().map(|s| K::enc(s)).collect()
 }
 
-impl<K: Kind> AnyPlanner<K> {
+impl<K: Kind, F: Flavor<K>> AnyPlanner<K, F> {
     fn new(case: &PlanCase) -> Self {
         let cfg = PlannerConfig { seed: case.seed };
         match case.planner {
@@ -260,7 +293,7 @@ impl<K: Kind> AnyPlanner<K> {
             PlannerTag::PRM => AnyPlanner::Prm(PRM::new(1.0e9, case.radius, &cfg)),
         }
     }
-    fn setup(&mut self, pd: Arc<PD<K>>, vc: Arc<WChecker<K>>) {
+    fn setup(&mut self, pd: Arc<PD<K, F>>, vc: Arc<WChecker<K>>) {
         match self {
             AnyPlanner::Rrt(p) => p.setup(pd, vc),
             AnyPlanner::Con(p) => p.setup(pd, vc),
@@ -356,40 +389,33 @@ pub fn guarded<T>(f: impl FnOnce() -> T) -> Result<T, (String, String)> {
     }
 }
 
-pub struct Built<K: Kind> {
+pub struct Built<K: Kind, F: Flavor<K>> {
     pub space: K::SP,
     pub rec: RecRef,
-    pub pds: Vec<Arc<PD<K>>>,
+    pub pds: Vec<Arc<PD<K, F>>>,
     /// one checker per world (index 0 = `world`, 1 = `world2`)
     pub checkers: Vec<Arc<WChecker<K>>>,
 }
 
-pub fn build_case<K: Kind>(case: &PlanCase) -> Result<Built<K>, String> {
+pub fn build_case<K: Kind, F: Flavor<K>>(case: &PlanCase) -> Result<Built<K, F>, String> {
     let space = K::build(&case.space)?;
     let rec: RecRef = Rc::new(RefCell::new(Rec {
         script: case.script.clone(),
         space_fail_at: case.space_fail_at,
         goal_fail_at: case.goal_fail_at,
+        fault_persists: case.fault_persists,
         query_cap: case.query_cap,
         ..Default::default()
     }));
     // one space object shared by all problem definitions of the case, as a caller re-using a
     // space for several queries would do
     #[allow(clippy::arc_with_non_send_sync)]
-    let shared_space = Arc::new(WSpace::<K> {
-        inner: space.clone(),
-        cfg: case.space.clone(),
-        rec: rec.clone(),
-    });
+    let shared_space = Arc::new(F::wrap(space.clone(), case.space.clone(), rec.clone()));
     let second_space = match &case.space2 {
         Some(cfg2) => {
             let sp2 = K::build(cfg2)?;
             #[allow(clippy::arc_with_non_send_sync)]
-            let w = Arc::new(WSpace::<K> {
-                inner: sp2.clone(),
-                cfg: cfg2.clone(),
-                rec: rec.clone(),
-            });
+            let w = Arc::new(F::wrap(sp2.clone(), cfg2.clone(), rec.clone()));
             Some((sp2, w))
         }
         None => None,
@@ -449,9 +475,17 @@ pub fn build_case<K: Kind>(case: &PlanCase) -> Result<Built<K>, String> {
 const FOREVER: Duration = Duration::from_secs(1_000_000_000);
 
 pub fn run_case<K: Kind>(case: &PlanCase) -> Result<Trace, String> {
-    let b = build_case::<K>(case)?;
+    if case.raw_space {
+        run_case_f::<K, Raw>(case)
+    } else {
+        run_case_f::<K, Wrapped>(case)
+    }
+}
+
+fn run_case_f<K: Kind, F: Flavor<K>>(case: &PlanCase) -> Result<Trace, String> {
+    let b = build_case::<K, F>(case)?;
     let lvs = b.space.get_longest_valid_segment_length();
-    let mut planner = AnyPlanner::<K>::new(case);
+    let mut planner = AnyPlanner::<K, F>::new(case);
     let mut steps = Vec::new();
     let mut dead = false;
     let mut params = (case.step, case.goal_bias, case.radius);
@@ -586,6 +620,7 @@ pub fn run_case<K: Kind>(case: &PlanCase) -> Result<Trace, String> {
             goal_samples: (g0, r.goal_samples.len()),
             uniform_calls: (u0, r.n_uniform_calls),
             goal_calls: (gc0, r.n_goal_calls),
+            sampler_calls: (u0 + gc0, r.call_times.len()),
             elapsed,
             ticks,
             cap_fired: r.cap_hit && !cap_before,
